@@ -1,4 +1,4 @@
 // harness TU for R16 (double): used by the De Casteljau index check (trajectory e_i in R^N)
 #define HX_HAS_ROTATION 0
 #include "generic.h"
-namespace hx { void run_R16(const Req& r, Resp& R) { run<manif::Rn<double, 16>>(r, R); } }
+namespace hx { void run_R16(const Req& r, Resp& R) { run<manif::Rn<HX_SC, 16>>(r, R); } }
